@@ -366,7 +366,17 @@ func (ctx *actorContext) Stop(refs ...*prc.ProcessId) {
 
 func (ctx *actorContext) Resume(refs ...*prc.ProcessId) {
 	for _, ref := range refs {
-		ctx.deliverySystemMessage(ref, ref, ctx.ref, nil, onResumeMailbox)
+		// the decision is queued like a restart request and applied by the actor itself (onResume): lifting the
+		// suspension from here would also lift the one of a restart that is still waiting for its children
+		ctx.deliverySystemMessage(ref, ref, ctx.ref, nil, onResume)
+	}
+}
+
+// onResume applies a supervisor's Resume decision. Only a living actor resumes: a restart or a termination that is
+// under way resumes the mailbox itself when the time has come.
+func (ctx *actorContext) onResume() {
+	if ctx.status.Load() == actorStatusAlive {
+		ctx.deliverySystemMessage(ctx.ref, ctx.ref, ctx.ref, nil, onResumeMailbox)
 	}
 }
 
@@ -465,6 +475,8 @@ func (ctx *actorContext) processMessage(sender, receiver ActorRef, message Messa
 		ctx.onTerminated(&OnTerminated{TerminatedActor: m.TerminatedProcess})
 	case *onRestartMessage:
 		ctx.onRestart()
+	case *onResumeMessage:
+		ctx.onResume()
 	case *supervision.AccidentRecord:
 		ctx.onAccidentRecordProcess(m)
 	case *messages.Watch:
